@@ -157,6 +157,29 @@ func (a *armTracker) rearm() {
 	a.mu.Unlock()
 }
 
+// early: does the observation line report a time-out for a request that was written less than the configured timeout
+// ago? (a slow harness can only make time-outs late, never early: such a time-out is the library's doing)
+func (a *armTracker) early(out string, timeout time.Duration) bool {
+	a.mu.Lock()
+	defer a.mu.Unlock()
+	for _, p := range strings.Split(out, " ") {
+		f := strings.Split(p, ":")
+		if f[0] != "cancel" || f[len(f)-1] != "timeout" {
+			continue
+		}
+		var key string
+		if len(f) == 4 {
+			key = f[1] + ":" + f[2] // cancel:client:id:timeout
+		} else if len(f) == 3 {
+			key = ":" + f[1] // cancel:id:timeout
+		}
+		if t, ok := a.t[key]; ok && time.Since(t) < timeout-3*time.Millisecond {
+			return true
+		}
+	}
+	return false
+}
+
 // observe drops the requests concluded according to the observation line
 func (a *armTracker) observe(out string) {
 	a.mu.Lock()
@@ -413,6 +436,7 @@ func runCDisp(ops []string, emit func(string)) {
 			continue
 		}
 		out := settle(lg)
+		earlyTO := arms.early(out, dispTimeout)
 		arms.observe(out)
 		if f[0] == "wait" && time.Since(waitStart)+waitOldest > 2*dispTimeout-10*time.Millisecond {
 			// the harness overslept: a request written at the first expiry may already have expired too
@@ -430,7 +454,7 @@ func runCDisp(ops []string, emit func(string)) {
 			emit("TIMING")
 			continue
 		}
-		if f[0] != "wait" && strings.Contains(out, ":timeout") {
+		if f[0] != "wait" && strings.Contains(out, ":timeout") && !earlyTO {
 			// a real timer fired although the model's clock did not advance: the harness was descheduled
 			tainted = true
 			emit("TIMING")
